@@ -784,7 +784,16 @@ impl Kanata {
         self.check_handle_layer_change(tx);
 
         if self.live_reload_requested
-            && ((self.prev_keys.is_empty() && self.cur_keys.is_empty())
+            && ((self.prev_keys.is_empty()
+                && self.cur_keys.is_empty()
+                // Held custom actions (mouse buttons, scrolling, mouse movement...) are only
+                // ended by their release handlers, which the reload would discard.
+                && !self
+                    .layout
+                    .b()
+                    .states
+                    .iter()
+                    .any(|s| matches!(s, State::Custom { .. })))
                 || self.ticks_since_idle > 1000)
         {
             // Note regarding the ticks_since_idle check above:
